@@ -86,11 +86,15 @@ pub fn introspect_schema(
 
     // Only open (and thereby truncate) the output once there is something to write, so that a
     // failed introspection leaves an existing schema file untouched.
-    let out: Box<dyn Write> = match output {
+    let mut out: Box<dyn Write> = match output {
         Some(path) => Box::new(::std::fs::File::create(path)?),
         None => Box::new(std::io::stdout()),
     };
-    serde_json::to_writer_pretty(out, &json)?;
+    serde_json::to_writer_pretty(&mut out, &json)?;
+    // stdout is line buffered and pretty-printed JSON does not end with a newline: without an
+    // explicit flush the tail is written at process exit, where a write error (full disk, closed
+    // pipe) is silently ignored and the exit status stays 0.
+    out.flush()?;
 
     Ok(())
 }
